@@ -1,19 +1,26 @@
 #!/bin/bash
-# final_verify.sh: every seeded change and reverted fix against the check of its own property (2 shards) and
-# every property-preserving refactoring against every check (3 shards), concurrently, on scratch clones.
+# final_verify.sh [thorough]: phase 1 - every property-preserving refactoring against the checks that drive the
+# code it touches (3 shards; NEUTRAL_ARGS=--relevant, empty for all x all) and, if asked, the thorough tier of
+# every check on the clean tree; phase 2 - every seeded change and reverted fix against the check of its own
+# property (4 shards).  Everything on scratch clones.
 cd "$(dirname "$0")/.."
 mkdir -p findings/final
-python3 tools/matrix.py --checks own --shard 0/2 --out findings/final/matrix0.json > findings/final/matrix0.log 2>&1 &
-python3 tools/matrix.py --checks own --shard 1/2 --out findings/final/matrix1.json > findings/final/matrix1.log 2>&1 &
-python3 tools/neutral.py $NEUTRAL_ARGS --shard 0/3 --out findings/final/neutral0.json > findings/final/neutral0.log 2>&1 &
-python3 tools/neutral.py $NEUTRAL_ARGS --shard 1/3 --out findings/final/neutral1.json > findings/final/neutral1.log 2>&1 &
-python3 tools/neutral.py $NEUTRAL_ARGS --shard 2/3 --out findings/final/neutral2.json > findings/final/neutral2.log 2>&1 &
+NEUTRAL_ARGS=${NEUTRAL_ARGS---relevant}
+for i in 0 1 2; do
+  python3 tools/neutral.py $NEUTRAL_ARGS --shard $i/3 --out findings/final/neutral$i.json > findings/final/neutral$i.log 2>&1 &
+done
 if [ "$1" = "thorough" ]; then
   bash tools/runall.sh thorough > findings/final/thorough.log 2>&1 &
 fi
 wait
-echo "== missed"; grep -h "missed" findings/final/matrix*.log
 echo "== does not apply"; grep -h "DOES NOT APPLY" findings/final/*.log
 echo "== alarms"; grep -h "ALARM" -A1 findings/final/neutral*.log
 echo "== thorough"; cat findings/final/thorough.log 2>/dev/null | cut -c1-200
+echo "== phase 1 done"
+for i in 0 1 2 3; do
+  python3 tools/matrix.py --checks own --shard $i/4 --out findings/final/matrix$i.json > findings/final/matrix$i.log 2>&1 &
+done
+wait
+echo "== missed"; grep -h "missed" findings/final/matrix*.log
+echo "== does not apply"; grep -h "DOES NOT APPLY" findings/final/matrix*.log
 echo "== done"
